@@ -198,18 +198,24 @@ class AddressBase(Base):
     def line(self, line: str) -> None:
         line = h.init_line(line)
         addrgroup = self._addrgroup
-        if self._is_address_any(line):
-            self._line__any()
-        elif self._is_address_prefix(line):
-            self._line__prefix(line)
-        elif self._is_address_wildcard(line):
-            self._line__wildcard(line)
-        elif self._is_address_host(line):
-            self._line__host(line)
-        elif self._is_addrgroup(line):
-            self._line_addrgroup(line)
-        else:
-            raise ValueError(f"invalid address {line=}")
+        state = (self._type, self._addrgroup, self._wildcard)
+        try:
+            if self._is_address_any(line):
+                self._line__any()
+            elif self._is_address_prefix(line):
+                self._line__prefix(line)
+            elif self._is_address_wildcard(line):
+                self._line__wildcard(line)
+            elif self._is_address_host(line):
+                self._line__host(line)
+            elif self._is_addrgroup(line):
+                self._line_addrgroup(line)
+            else:
+                raise ValueError(f"invalid address {line=}")
+        except ValueError:
+            # a rejected line leaves the address as it was
+            self._type, self._addrgroup, self._wildcard = state
+            raise
         # members belong to the group they were given for
         if self._addrgroup != addrgroup:
             self._items = []
